@@ -1,5 +1,6 @@
 SPECIFICATION Spec
 CONSTANTS
+  Mode = "body"
   Quick = TRUE
   MaxItems = 1
   EmitEvery = 1000000
